@@ -1,0 +1,16 @@
+//go:build verif
+
+package routetab
+
+import (
+	"github.com/gauss-project/aurorafs/pkg/addressbook"
+	"github.com/gauss-project/aurorafs/pkg/logging"
+	"github.com/gauss-project/aurorafs/pkg/routetab/pb"
+)
+
+// VerifSaveUnderlay runs the unexported saveUnderlay of a route service that has only the
+// given address book, network id and logger (verification harness only).
+func VerifSaveUnderlay(ab addressbook.Interface, networkID uint64, logger logging.Logger, list []*pb.UnderlayResp) {
+	s := &Service{addressbook: ab, networkID: networkID, logger: logger}
+	s.saveUnderlay(list)
+}
